@@ -30,6 +30,9 @@ ADV = [500 + 10 * (i + 1) for i in range(NG)]
 FLAGNAMES = [(1, "RightToLeft"), (2, "IgnoreBaseGlyphs"), (4, "IgnoreLigatures"), (8, "IgnoreMarks")]
 
 
+# smoke-test knob for the thorough tier only (scales the number of programs); registered commands leave it at 1
+SCALE = float(os.environ.get("C11_SCALE", "1") or 1)
+
 # FeaSem folds over statements recursively; give TLC's worker threads a deep stack
 JVM_ENV = {"JAVA_TOOL_OPTIONS": "-Xss64m"}
 
@@ -674,8 +677,9 @@ def observe(data, prog, gid_of, abs_of, universe, seqs, alts=(1,)):
         out = []
         for q in seqs:
             res = sh.shape_rel([gid_of[a] for a in q], feats, s, l)
-            out.append([[abs_of.get(r[0], 0) for r in res],
-                        [[i + 1, r[1], r[2], r[3], r[4]] for i, r in enumerate(res) if r[1] or r[2] or r[3] or r[4]]])
+            gl = [abs_of.get(r[0], 0) for r in res]
+            adj = [[i + 1, r[1], r[2], r[3], r[4]] for i, r in enumerate(res) if r[1] or r[2] or r[3] or r[4]]
+            out.append([] if (gl == q and not adj) else [gl, adj])  # [] = "unchanged": most probes, keeps the JSON small
         probes.append({"s": s, "l": l, "fs": fs, "alt": alt, "hb": out})
     return proj, unsupported, probes
 
@@ -741,7 +745,7 @@ def generate(chk):
 
     thorough = chk.tier == "thorough"
     nsl = 8
-    num, depth = (140, 30) if not thorough else (2500, 32)
+    num, depth = (140, 30) if not thorough else (max(20, int(1500 * SCALE)), 32)
 
     def exhaustive():
         return chk.tlc("MC_FeaSem", cfg="MC_FeaSem_full" if thorough else "MC_FeaSem", workers=8, env=JVM_ENV,
@@ -767,8 +771,10 @@ def generate(chk):
             if p[0] not in seen:
                 seen.add(p[0])
                 big.append(p[0])
+    simstates = sum(int(m.group(1)) for x in sims for m in [re.search(r"The number of states generated: (\d+)", x.stdout)] if m)
+    chk.transitions += simstates
     chk.notes["mc_simulation"] = {"slices": nsl, "walks_per_slice": num, "depth": depth, "complete_programs": len(big),
-                                  "states": sum(x.generated for x in sims)}
+                                  "states_generated": simstates}
     chk.log("MC_FeaSem simulation: %d further complete programs" % len(big))
     return [json.loads(x) for x in small], [json.loads(x) for x in big]
 
@@ -776,9 +782,8 @@ def generate(chk):
 def nontrivial_gen(t):
     """a generated case is non-trivial if some probe sequence is changed by shaping"""
     for pr in t["probes"]:
-        for q, o in zip(t["seqs"], pr["hb"]):
-            if o[0] != q or o[1]:
-                return True
+        if any(pr["hb"]):
+            return True
     return False
 
 
@@ -1026,19 +1031,34 @@ def strip(t):
     return {k: t[k] for k in keep if k in t}
 
 
-def judge(chk, traces, label):
+def judge(chk, traces, label, parallel=4):
+    """Batch validation by Trace_C11.  Deserialising the trace file is single-threaded in TLC, so the
+    batch is split into `parallel` balanced parts judged by concurrent TLC processes."""
+    import time
+    from concurrent.futures import ThreadPoolExecutor
+
     if not traces:
         return []
-    rejected = []
-    step = 450
-    for base in range(0, len(traces), step):
-        part = traces[base:base + step]
-        r = chk.tlc("Trace_C11", traces=[strip(t) for t in part], timeout=1500, label=label, heap="8g", env=JVM_ENV)
+    nparts = max(1, min(parallel, (len(traces) + 39) // 40))
+    parts = [traces[i::nparts] for i in range(nparts)]
+    workers = max(2, 16 // nparts)
+
+    def one(i):
+        time.sleep(0.5 * i)  # chk.tlc numbers its scratch files when it starts
+        part = parts[i]
+        r = chk.tlc("Trace_C11", traces=[strip(t) for t in part], timeout=2400, label="%s part %d/%d" % (label, i + 1, nparts),
+                    heap="4g", env=JVM_ENV, workers=workers)
         if r.distinct < 2 * len(part):
             raise MachineryError("Trace_C11 judged %d states for %d traces" % (r.distinct, len(part)))
+        return r
+
+    with ThreadPoolExecutor(nparts) as ex:
+        results = list(ex.map(one, range(nparts)))
+    rejected = []
+    for part, r in zip(parts, results):
         dets = {p[0]: p[1] for p in r.prints.get("DET", [])}
         rej = {p[0]: p[1] for p in r.rej}
-        for tid, clause in rej.items():
+        for tid, clause in sorted(rej.items()):
             rejected.append((part[tid - 1], clause, dets.get(tid)))
         chk.traces_validated += len(part) - len(rej)
     return rejected
@@ -1061,8 +1081,8 @@ def run(chk):
     thorough = chk.tier == "thorough"
     small, big = generate(chk)
     maxlen = 4 if thorough else 3
-    cap = 400 if thorough else 64
-    n_small, n_big = (6000, 14000) if thorough else (250, 500)
+    cap = 150 if thorough else 64
+    n_small, n_big = (int(2500 * SCALE), int(5500 * SCALE)) if thorough else (250, 500)
     chk.rng.shuffle(small)
     chk.rng.shuffle(big)
     progs = small[:n_small] + big[:n_big]
